@@ -46,7 +46,7 @@ func TestVerifC04Procs(t *testing.T) {
 		for i := range names {
 			switch rapid.IntRange(0, 3).Draw(t, "nameKind") {
 			case 0, 3:
-				names[i] = fmt.Sprintf("L%d/", i) + strings.Repeat("y", rapid.SampledFrom([]int{2500, 4000, 4090}).Draw(t, "longLen"))
+				names[i] = fmt.Sprintf("L%d/", i) + strings.Repeat("y", rapid.OneOf(rapid.SampledFrom([]int{2500, 4000, 4090}), rapid.IntRange(1500, 4090)).Draw(t, "longLen"))
 			case 1:
 				if i > 0 {
 					names[i] = vgen.Colliding(names[0], i)
@@ -74,7 +74,7 @@ func TestVerifC04Procs(t *testing.T) {
 		prefill := rapid.SampledFrom([]int{0, 0, 2, 3, 3}).Draw(t, "prefill")
 		prefilled := map[string]uint64{}
 		for i := 0; i < prefill; i++ {
-			name := fmt.Sprintf("fill%d/", i) + strings.Repeat("f", 3900)
+			name := fmt.Sprintf("fill%d/", i) + strings.Repeat("f", rapid.IntRange(3700, 4080).Draw(t, "fillLen"))
 			(&Counter{name: name, file: files[0]}).Add(1)
 			prefilled[name] = 1
 		}
